@@ -200,7 +200,7 @@ func runProp(prop, tier string, seed uint64, dir string) {
 	sort.Strings(keys)
 	stats := map[string]interface{}{
 		"evaluations": r.n, "distinct": len(r.distinct), "distinct_nontrivial": len(r.nontrivial),
-		"histogram": r.hist, "outcome_classes": r.classes, "samples": r.samples, "rule": rule,
+		"histogram": r.hist, "outcome_classes": topClasses(r.classes, 200), "samples": r.samples, "rule": rule,
 		"oracle_failures": r.oracleFails, "gen_wall_s": time.Since(start).Seconds(),
 	}
 	if maxAllocPct > 0 {
@@ -208,4 +208,32 @@ func runProp(prop, tier string, seed uint64, dir string) {
 	}
 	b, _ := json.MarshalIndent(stats, "", " ")
 	os.WriteFile(dir+"/stats.json", b, 0o644)
+}
+
+// topClasses keeps the n most frequent outcome classes and folds the rest into one entry
+// (for value-returning ops every result is a class of its own).
+func topClasses(m map[string]int, n int) map[string]int {
+	if len(m) <= n {
+		return m
+	}
+	type kv struct {
+		k string
+		v int
+	}
+	var all []kv
+	for k, v := range m {
+		all = append(all, kv{k, v})
+	}
+	sort.Slice(all, func(i, j int) bool { return all[i].v > all[j].v || (all[i].v == all[j].v && all[i].k < all[j].k) })
+	out := map[string]int{}
+	rest := 0
+	for i, e := range all {
+		if i < n {
+			out[e.k] = e.v
+		} else {
+			rest += e.v
+		}
+	}
+	out[fmt.Sprintf("(%d further classes)", len(all)-n)] = rest
+	return out
 }
